@@ -157,7 +157,19 @@ def literal_modules(rng, n_ops: int = 12):
     for k in range(0, len(attrs), n_ops):
         ops = [test.TestOp.create(attributes={"v": a, "second": attrs[(k + j * 7 + 3) % len(attrs)]}) for j, a in enumerate(attrs[k:k + n_ops])]
         mods.append(ModuleOp(ops))
-    return mods, len(attrs)
+    # names at the edge of "bare identifier or quoted string": attribute / property dictionary keys and symbol names
+    names = ["a", "a.b", "a$", "_x", "with space", "trail_newline\n", "trail2\n\n", "\nlead", "mid\nnl", "tab\t", "quote\"q", "back\\s", "1digit", "", "é", "a-b", "@at",
+             "%p", "x\r", "x\x00", "a b\n"]
+    for k in range(0, len(names), 5):
+        grp = names[k:k + 5]
+        ops = []
+        for nm in grp:
+            if nm:
+                ops.append(test.TestOp.create(attributes={nm: UnitAttr(), "d": DictionaryAttr({nm: UnitAttr(), "z": StringAttr(nm)})},
+                                              properties={nm: IntegerAttr(1, IntegerType(32))}))
+            ops.append(test.TestOp.create(attributes={"s": SymbolRefAttr(nm or "e", [nm or "e", "n"])}))
+        mods.append(ModuleOp(ops))
+    return mods, len(attrs) + len(names)
 
 
 def run(ctx: Ctx):
